@@ -344,7 +344,7 @@ Proof.
     apply andb_prop in Hw as [Wf Hv]. apply Nat.eqb_eq in Hv.
     intros h d Hc.
     assert (Hxv : length (vmul x v) = fdim f) by (unfold vmul; apply vmap2_len; lia).
-    rewrite <- wdot_vmul_shift, (vmul_comm v x).
+    rewrite <- wdot_vmul_shift.
     apply (IH w (vmul x v) Wf Hok Hwl Hxv Hreg (fun t => vmul (h t) v) (vmul d v)). apply curve_mul_const; [exact Hc|exact Hv].
   - (* Comp with a matrix: unweighted spaces (transpose), or the true adjoint W^-1 M^T W' *)
     apply andb_prop in Hw as [Hw Hw'l]. apply Nat.eqb_eq in Hw'l.
